@@ -33,6 +33,10 @@ CHECKS = {
  'C01': ('exploration', 'runtime monitor: reference-model oracle (independent interpreter of the relational semantics) over generated structured queries x tables, observed through probe iterator/writer/registry (event log, alias map, source snapshots); JS leg via node',
          'Tens of thousands of generated (query, table, join table) cases per run are executed on the real engines and compared exactly (rows in order, header, error class and record number) with an independent interpreter; held on the executions observed.',
          'Trusted: rv/model/refsem.py; expressions limited to the typed vocabulary of rv/model/qast.py.', 'DESIGN.md#c01'),
+
+ 'C02': ('exploration', 'runtime monitor: reference-model oracle + metamorphic oracles on the real engine (TOP n = prefix of the unbounded run for every n, DESC = reverse of ASC) + read-budget trace automaton over an unbounded lazy input; JS leg via node',
+         'Every bound n in 0..|out|+1 of thousands of generated sort/dedup/truncate queries is executed; bounded streaming queries run over an unbounded input whose iterator raises once the budget p_(n+1) is exceeded; held on the executions observed.',
+         'Trusted: rv/model/refsem.py. The termination clause is restated as bounded progress (reads <= position of the record producing output n+1).', 'DESIGN.md#c02'),
 }
 
 NOT_YET = 'check not registered yet (machinery under construction; see DESIGN.md section 3a build order)'
